@@ -67,6 +67,22 @@ let () =
   if Array.length Sys.argv < 2 then (prerr_endline "usage: model_scan <unicode-table> | model_scan tokens"; exit 2);
   if Sys.argv.(1) = "tokens" then (tokens_mode (); exit 0);
   load Sys.argv.(1);
+  (* `model_scan <table> pred`: for each case "<d><m> <hex>" print the hypotheses of the agreement
+     theorems evaluated by the model on that source and mode:  "<go_like> <shared>" *)
+  if Array.length Sys.argv > 2 && Sys.argv.(2) = "pred" then begin
+    (try while true do
+      let line = input_line stdin in
+      if String.length line < 3 then print_string "- -" else begin
+        let comments = line.[1] = 'c' in
+        let src = unhex (String.trim (String.sub line 3 (String.length line - 3))) in
+        print_string (if go_like ul ud comments src then "1" else "0");
+        print_char ' ';
+        print_string (if shared ul ud comments src then "1" else "0")
+      end;
+      print_newline ()
+    done with End_of_file -> ());
+    exit 0
+  end;
   let buf = Buffer.create 4096 in
   try while true do
     let line = input_line stdin in
